@@ -451,6 +451,26 @@ func init() {
 				}
 			}
 			x.check(okClk, k+" clocks=SetClocks(vector.MaxLamport(),vector)", x.fpos(fn), "the clocks are adopted from the snapshot's vector", "applySnapshot no longer adopts the snapshot vector and its maximum lamport")
+			// a document built from a stored snapshot adopts the stored lamport and vector
+			if nf := x.fn(docPkg + ".NewInternalDocumentFromSnapshot"); nf != nil {
+				var lam, vecP *ssa.Parameter
+				for _, pm := range nf.Params {
+					if b, ok := pm.Type().Underlying().(*types.Basic); ok && b.Kind() == types.Int64 && strings.Contains(strings.ToLower(pm.Name()), "lamport") {
+						lam = pm
+					}
+					if n, ok := pm.Type().(*types.Named); ok && n.Obj().Name() == "VersionVector" {
+						vecP = pm
+					}
+				}
+				okS := false
+				for _, c := range callsToIn(nf, setClocks) {
+					a := c.Common().Args
+					if lam != nil && vecP != nil && prog.Strip(a[1]) == ssa.Value(lam) && prog.Strip(a[2]) == ssa.Value(vecP) {
+						okS = true
+					}
+				}
+				x.check(okS, "func="+prog.FnName(nf)+" clocks=SetClocks(stored lamport, stored vector)", x.fpos(nf), "the rebuilt document adopts the snapshot row's lamport and vector", "a document built from a stored snapshot does not adopt the stored lamport and vector: its next change can carry a clock older than what the snapshot contains")
+			}
 			// server side: the function in packs that calls SnapshotToBytes on the PushPull path
 			p := x.pipe()
 			if !p.ok {
@@ -489,6 +509,23 @@ func init() {
 					}
 				}
 				x.check(ok, hk+" own-changes-applied-before-encoding", x.pos(c), "pushed changes are part of the snapshot", "the request's own changes are no longer applied before the snapshot is encoded")
+				// … whenever the request carries any change (presence-only ones included)
+				hasCh := x.P.FnObj(changePkg + ".(*Pack).HasChanges")
+				packChanges := x.P.Field(changePkg + ".Pack.Changes")
+				lenCh := VP{"len(request.Changes)", func(v ssa.Value) bool {
+					cc, ok := prog.Strip(v).(*ssa.Call)
+					if !ok {
+						return false
+					}
+					bi, ok := cc.Call.Value.(*ssa.Builtin)
+					return ok && bi.Name() == "len" && prog.LoadedField(cc.Call.Args[0]) == packChanges
+				}}
+				var vias []ssa.Instruction
+				for _, a := range callsToIn(host, apply) {
+					vias = append(vias, a)
+				}
+				x.guardedOrVia(hk+" own-changes-applied-whenever-the-request-has-changes", c, []Cmp{isFalse(vpCall(hasCh)), {L: lenCh, R: vpConst(0), Want: LE}}, vias,
+					"the snapshot includes the request's changes whenever it has any", "a request that carries changes (e.g. presence only) can get a snapshot that does not include them: the sender's own presence differs from what peers see")
 			}
 		}})
 }
